@@ -7,7 +7,7 @@ from .C01 import hand_schemas
 THEOREMS = ["lex_line_count", "dqRun_line", "sqRun_line", "commentRun_line", "lineComment_line", "pstep_line",
             "pstep_err_reported", "pstep_eof_reported", "pstep_nat", "C06_layout_independent", "C14_log_monotone",
             "C06_rejection_reported", "C06_rejecting_step_reports", "C06_invariant_reachable", "C06_accepted_only_notices",
-            "C06_notice_needs_flag", "C06_resolver", "C06_include_reported", "C06_pop_source", "C06_include_restarts",
+            "C06_accepted_silent", "C06_accepted_silent_any", "pstep_ndm", "C06_notice_needs_flag", "C06_resolver", "C06_include_reported", "C06_pop_source", "C06_include_restarts",
             "C06_return_restores"]
 PARTIAL = ("Proved: (a) every rejection is reported - a token stream that takes the machine to 'rejected' has delivered at least one more diagnostic "
            "or callback invocation than before the parse (C06_rejection_reported, from the per-step C06_rejecting_step_reports and the invariant "
@@ -23,9 +23,9 @@ PARTIAL = ("Proved: (a) every rejection is reported - a token stream that takes 
            "starts at line 1 under its own name and the loop goes on in the includer with the remembered name and line (C06_include_restarts, "
            "C06_return_restores); and positions are only ever reported, never acted on: the token machine commutes with the erasure of every file "
            "name and line number (pstep_nat), so the same tokens under ANY placement of newlines give the same acceptance, values, callback "
-           "invocations and diagnostic classes (C06_layout_independent). Not proved: 'no deprecated option anywhere in the schema => no notice' as a "
-           "whole-tree invariant (the local statement C06_notice_needs_flag is proved; the oracle 'rc=0 and no deprecated option => no diagnostic' "
-           "checks the rest on the implementation), and that the line reported for a *parser* diagnostic is the line the offending token ends on for "
+           "invocations and diagnostic classes (C06_layout_independent). And as the property words it: when no declaration of the schema "
+           "carries the DEPRECATED flag, a parse that is not rejected delivers no diagnostic at all (C06_accepted_silent; the whole-tree invariant "
+           "'no option at any depth is deprecated' is kept by every operation of the store and every step: pstep_ndm). Not proved: that the line reported for a *parser* diagnostic is the line the offending token ends on for "
            "whole byte-level runs with includes (pstep_line per step; the tie compares file and line of the first diagnostic).")
 VARIANT = "asan"
 RULE = ("grammar-derived valid texts rendered with many newlines, #, //, /* */ (single/multi-line, empty) comments, multi-line and "
@@ -62,13 +62,20 @@ def inject(rng, toks, names=()):
     if not toks:
         return [b"}"], "stray"
     i = rng.randrange(len(toks))
-    kind = rng.choice(["wrong", "badvalue", "unknown", "cut", "cut"] + (["unknownpath"] if names else []))
+    kind = rng.choice(["wrong", "badvalue", "unknown", "unknownbad", "cut", "cut"] + (["unknownpath"] if names else []))
     if kind == "wrong":
         toks[i] = rng.choice([b"}", b"=", b",", b"(", b")", b"{", b"+="])
     elif kind == "badvalue":
-        toks[i] = rng.choice([b"9x", b"\"\\400\"", b"\"\\1234\"", b"zz"])
+        toks[i] = rng.choice([b"9x", b"\"\\400\"", b"\"\\1234\"", b"zz", b"99999999999999999999", b"-9223372036854775809", b"1e999",
+                              b"-1e999", b"inf", b"nan", b"0x", b"1.5x"])
     elif kind == "unknown":
         toks.insert(i, b"nosuchname")
+    elif kind == "unknownbad":
+        # an unknown name followed by something that cannot follow it even when unknown options are skipped
+        # (states 10, 11 and 14 of the parser)
+        toks[i:i] = rng.choice([[b"nosuchname", b","], [b"nosuchname", b")"], [b"nosuchname", b"}"], [b"nosuchname", b"t", b"="],
+                                [b"nosuchname", b"t", b"t2"], [b"nosuchname", b"=", b")"], [b"nosuchname", b"+=", b","],
+                                [b"nosuchname", b"=", b"="]])
     elif kind == "unknownpath":
         # an unknown name written as a path: through a declared option (section, free-form section, scalar), through nothing
         nm = rng.choice(list(names)).encode("latin1")
@@ -102,7 +109,7 @@ def generate(rng, tier):
         schemas.append(with_include(gen.rand_schema(rng, p_flags=0.25, allow=("int", "float", "bool", "str", "sec", "sec", "ptr"))))
     for opts in schemas:
         for _ in range(per):
-            ctxflags = NOCASE if rng.random() < 0.2 else 0
+            ctxflags = (NOCASE if rng.random() < 0.2 else 0) | (gen.IGNORE_UNKNOWN if rng.random() < 0.25 else 0)
             cdir = "%s/c%d" % (root, n)
             lines = schema_lines(opts) + ["CWD " + hx(cdir), "X 0 %d" % ctxflags]
             nfiles = rng.choice([0, 0, 0, 1, 1, 2])
@@ -128,6 +135,22 @@ def generate(rng, tier):
                 main = main + [b"include", b"(", b'"' + prev_inc.encode() + b'"', b")"] + tail
             if where == "main":
                 main, kind = inject(rng, main, [o.name for o in opts if o.name != "include"])
+            elif where is None and rng.random() < 0.25:
+                # include() failures: a file that includes itself (rejected at the depth limit, reported from inside the
+                # innermost level), a directory, a missing file, a missing file looked up through a search path
+                kind = rng.choice(["incdepth", "incdir", "incmissing", "incsp"])
+                if kind == "incdepth":
+                    lines.append("FILE %s reg %s" % (hx("loop.conf"), hx(b"# again\ninclude(\"loop.conf\")\n")))
+                    main = main + [b"include", b"(", b'"loop.conf"', b")"]
+                elif kind == "incdir":
+                    lines.append("FILE %s dir ." % hx("adir/keep"))
+                    main = main + [b"include", b"(", b'"adir"', b")"]
+                elif kind == "incmissing":
+                    main = main + [b"include", b"(", b'"nosuch.conf"', b")"]
+                else:
+                    lines.append("FILE %s dir ." % hx("spdir/keep"))
+                    lines.append("SP 0 " + hx("spdir"))
+                    main = main + [b"include", b"(", b'"nosuch.conf"', b")"]
             text = noisy_render(rng, main)
             lines += ["PB 0 " + hx(text)]
             # a second parse through cfg_parse (file) to exercise the other entry point
